@@ -422,3 +422,24 @@ class FiniteDifference(ApproximationScheme):
         """
         deltas, coeffs, current_coeff = data
         return (np.outer(np.atleast_1d(deltas), direction), coeffs, current_coeff)
+
+    def _index_approx_data(self, data, inds):
+        """
+        Restrict per-element approximation data (step_calc='rel_element') to the given indices.
+
+        Parameters
+        ----------
+        data : tuple
+            Tuple of the form (deltas, coeffs, current_coeff).
+        inds : ndarray of int
+            Indices (into the flattened variable) of the entries being perturbed.
+
+        Returns
+        -------
+        tuple
+            Approximation data for the selected entries only.
+        """
+        deltas, coeffs, current_coeff = data
+        if isinstance(current_coeff, np.ndarray) and current_coeff.size > 1:
+            return deltas[:, inds], coeffs[:, inds], current_coeff[inds]
+        return data
